@@ -367,7 +367,11 @@ def tail_statements(stmts, make):
             rest = stmts[i + 1:]
             body = tail_statements(list(st.body) + ([] if terminates(st.body) else rest), make)
             orelse = tail_statements(list(st.orelse) + ([] if st.orelse and terminates(st.orelse) else rest), make)
-            out.append(ast.If(test=st.test, body=body or [ast.Pass()], orelse=orelse))
+            if body and orelse and terminates(body):  # keep the guard-clause shape
+                out.append(ast.If(test=st.test, body=body, orelse=[]))
+                out.extend(orelse)
+            else:
+                out.append(ast.If(test=st.test, body=body or [ast.Pass()], orelse=orelse))
             return out
         out.append(st)
     out.extend(make(None))
@@ -547,12 +551,21 @@ class Inliner:
         prefix = binds + _flat_stmts(subst(st, mapping) for st in h.prefix)
         result = subst(h.result, mapping) if h.result is not None else None
         if h.tail and result is None:
-            if stmt is None or not isinstance(stmt, (ast.Expr, ast.Assign, ast.AugAssign, ast.AnnAssign, ast.Return)):
+            if stmt is None or not isinstance(stmt, (ast.Expr, ast.Assign, ast.AugAssign, ast.AnnAssign, ast.Return, ast.If)):
+                return None
+            if isinstance(stmt, ast.If) and (stmt.orelse or not (stmt.test is call or (isinstance(stmt.test, ast.UnaryOp) and isinstance(stmt.test.op, ast.Not)
+                                                                                       and stmt.test.operand is call))):
                 return None
 
             def make(e):
                 if e is None:  # fell off the end
                     e = ast.Constant(value=None)
+                if isinstance(stmt, ast.If):  # `if helper(..): BODY` -- the body goes where the helper returns something true
+                    neg = stmt.test is not call
+                    if isinstance(e, ast.Constant):
+                        return copy.deepcopy(stmt.body) if bool(e.value) != neg else []
+                    t = ast.UnaryOp(op=ast.Not(), operand=e) if neg else e
+                    return [ast.If(test=t, body=copy.deepcopy(stmt.body), orelse=[])]
                 if isinstance(stmt, ast.Expr):
                     return [] if is_pure(e) else [ast.Expr(value=e)]
                 c = copy.copy(stmt)
@@ -594,6 +607,14 @@ class Inliner:
             def visit_Lambda(self, node):
                 return node
         return T().visit(expr)
+
+    def _tail_helper_test(self, t):
+        if isinstance(t, ast.UnaryOp) and isinstance(t.op, ast.Not):
+            t = t.operand
+        if not self.helper_call(t):
+            return False
+        h = self.helpers[self.key(t)]
+        return bool(h.tail) and h.result is None
 
     def _find_hoistable(self, node):
         for field, value in ast.iter_fields(node):
@@ -659,6 +680,24 @@ class Inliner:
                 if isinstance(st, ast.Assign) and _self_assignment(st):
                     return pre
                 return pre + [st]
+        # `if A and helper(..): BODY` (no else) where the helper is a run of statements with early returns: nest, then distribute BODY over
+        # the helper's returns
+        if isinstance(st, ast.If) and not st.orelse:
+            t = st.test
+            if isinstance(t, ast.BoolOp) and isinstance(t.op, ast.And) and self._tail_helper_test(t.values[-1]):
+                inner = ast.If(test=t.values[-1], body=st.body, orelse=[])
+                ast.copy_location(inner, st)
+                st.test = t.values[0] if len(t.values) == 2 else ast.BoolOp(op=ast.And(), values=t.values[:-1])
+                st.body = [inner]
+            elif self._tail_helper_test(t):
+                call = t if isinstance(t, ast.Call) else t.operand
+                call.args = [self.rewrite_pure_calls(a, host_names) for a in call.args]
+                saved, self.owner = self.owner, st
+                st.body = self.block(st.body, host_names) or [ast.Pass(lineno=st.lineno, col_offset=st.col_offset)]
+                self.owner = saved
+                r = self.expand(call, host_names, True, st)
+                if r is not None and r[1] is Ellipsis:
+                    return r[0]
         # a call of a helper with leading statements somewhere inside the test of an `if` or the value of a simple statement: hoist
         # the statements in front when everything else in that expression is free of side effects
         holder = 'test' if isinstance(st, ast.If) else 'value' if isinstance(st, (ast.Expr, ast.Assign, ast.AugAssign, ast.AnnAssign,
